@@ -303,6 +303,7 @@ var assumptions = []string{
 	"OBSERVED (filled at the end of the run; not proved): time from the injection to the first GetEnvironment that reports ERROR",
 	"settle window: an environment that has not reported ERROR " + settleWindow.String() + " (+ 10 x the slowest GetEnvironment round trip seen meanwhile) after the core demonstrably handled the injected event (every victim's role reports a status other than ACTIVE; TASK_INTERNAL_ERROR, which never touches the status: after the injection) and after the racing transition returned is observed as 'did not leave its state'; the core's own delay is a 500 ms timer + GO_ERROR (no task command) + one STOP round trip to simulated executors that answer at once; a core that shows no reaction at all " + handledCeiling.String() + " after an event that was delivered on its stream is observed as it is",
 	"instant idle = immediately after the last API call (NewEnvironment / START_ACTIVITY) returned: a role that does not yet report the live state at that moment (the reply's `go updateTaskState` has not run) is recorded in the observation as (pending (i…)) and is the ONLY licence for the model's stale-update schedules (finding stale_update_overwrites_error); without it the creation's updates are assumed applied and the watcher goroutine subscribed. Every other instant first waits until no such update is pending",
+	"instant burst: the victim's own reply to the transition in flight and its failure reach the core back to back by construction, so the reply's `go updateTaskState` IS concurrent with the failure's update of the role (for TASK_INTERNAL_ERROR really so: the device event travels on a channel of its own). If a critical victim of a burst world did not take the environment to ERROR, ONE more failure is delivered alone once everything has settled (TASK_FAILED about the victim) and the observation gets (again ST TOLD): ST = the environment's state after that, TOLD = the core had published a role event 'victim's role: ERROR' after the main injection. (again ERROR 1) = the role was told, overwritten before the root handed the state on, and the watcher is still in its loop: the only licence for the model's lost-update variant (finding stale_update_overwrites_error, mechanism 'the two updates interleave inside aggregatorRole.updateState'; 2-3 % of the TASK_INTERNAL_ERROR burst worlds, more under load); a core whose watcher received the ERROR and did nothing, or that never told the role, answers otherwise and is a plain violation",
 	"simulated executors: one executor per host and environment (the core re-uses the executor of an offer), tasks answer every command with success unless scripted; a task that announced TASK_INTERNAL_ERROR still answers STOP with success",
 	"the core is not PARTITION_AWARE: TASK_DROPPED/UNREACHABLE/GONE are never sent by Mesos and are not generated",
 	"wall-clock order assumed by the model's schedule: replies of the in-flight transition, its end, a STOP_ACTIVITY queued by handleDeviceEvent, then the watcher's 500 ms timer",
